@@ -161,6 +161,25 @@ ROUND8 = {
  "C20": "Round 8: nodes built per element get pointers of their own; completion asks about the namespace as written.",
 }
 
+# clauses added after the blind seeding round 9 (seeded/ROUNDS.md); appended after ROUND8
+ROUND9 = {
+ "C01": "Round 9: a `continue` on the way to a nested accumulating push skips the element (shared with C06, C09).",
+ "C02": "Round 9: string escapes are spelled in Go's syntax, never with Rust's escape iterators (shared with C11).",
+ "C03": "Round 9: the equation between a callee's type and the call-site function type holds on every path; unify takes apart fully normalised operands.",
+ "C04": "Round 9: typed nodes whose diagnostics the CLI resolves against the entry file's text carry no syntax pointer; occurs is handed normalised types.",
+ "C05": "Round 9: nothing between lexer and typed program asks a letter-case question about a name.",
+ "C06": "Round 9: no letter-case question decides constructor or binder (shared with C05).",
+ "C07": "Round 9: key and substitution of a type instance are built from one argument list.",
+ "C08": "Round 9: tuples and lets never keep their pre-conversion type on any branch; a child-listing traversal the capture walk delegates to is audited like the walk.",
+ "C09": "Round 9: every literal arm becomes a case clause (no skip before a nested push).",
+ "C10": "Round 9: the parsed float value is range-tested whatever the literal's type; float32 text is parsed at f32 (resolved generic call).",
+ "C11": "Round 9: the multi-line string scanner removes the line terminator and nothing else; escapes are Go escapes.",
+ "C13": "Round 9: the key read_source_files sorts by is the resolved file (shared with C14).",
+ "C14": "Round 9: de-duplicating by file and sorting by spelling is not a canonical order.",
+ "C17": "Round 9: in mono, lift and anf a vtable call is built only from a vtable call.",
+ "C20": "Round 9: an on-demand scan of the HIR tables keeps the last id recorded for a syntax pointer, like the maps it replaces.",
+}
+
 CLAIMED = {
  "C01": dict(
    text="Semantic preservation is NOT decided. Decided on every arm of every pass: pass totality (no catch-all over the input IR, anchor "
@@ -349,6 +368,8 @@ def main():
                 c["text"] = c["text"] + " " + ROUND7[pid]
             if pid in ROUND8:
                 c["text"] = c["text"] + " " + ROUND8[pid]
+            if pid in ROUND9:
+                c["text"] = c["text"] + " " + ROUND9[pid]
             m["checks"].append({
                 "property_id": pid,
                 "quick_cmd": f"./check {pid} --tier quick",
